@@ -459,6 +459,13 @@ pub fn run(rep: &Report) {
             }
         }
     }
+    // u-coordinates RELATED to the scalars: each scalar's own public key (also with bit 255 set) -- every scalar meets it
+    for (n, k) in scalars.clone() {
+        let mut own = r::x25519_base(&k);
+        points.push((format!("public-key-of-{}", n), own));
+        own[31] |= 0x80;
+        points.push((format!("public-key-of-{}-bit255", n), own));
+    }
     for (kn_, k) in &scalars {
         for (un, u) in &points {
             x25519_case(rep, kn_, k, un, u);
@@ -542,6 +549,30 @@ pub fn run(rep: &Report) {
         });
         rep.add_distinct(jobs.len() as u64 * 5);
         rep.extra("tiny_plaintext_nonce_sweep", json!({"keys":keys.len(),"nonces":nn,"plaintexts":5}));
+    }
+    // (e0) HKDF outputs chosen by VALUE: among 4096 (length 1) and 262144 (length 2) different infos, those whose correct
+    // output is all zero (about 16 and 4 of them) -- and every other one -- must come out as RFC 5869 says
+    {
+        let ikm = derive(seed, "c19-hkdf-zero-ikm", 32);
+        let salt = derive(seed, "c19-hkdf-zero-salt", 16);
+        let zeros = std::sync::atomic::AtomicU64::new(0);
+        for (len, count) in [(1usize, 4096u32), (2, 262_144)] {
+            (0..count).into_par_iter().for_each(|i| {
+                let info = i.to_le_bytes();
+                let want = r::hkdf_sha256(&salt, &ikm, &info, len);
+                if want.iter().all(|&b| b == 0) {
+                    zeros.fetch_add(1, std::sync::atomic::Ordering::Relaxed);
+                }
+                rep.eval(1);
+                match guarded(|| kc::hkdf_sha256(&salt, &ikm, &info, len)) {
+                    Ok(got) if got == want => {}
+                    Ok(_) => rep.violation("hkdf-differs", json!({"kind":"hkdf","shape":"by-value","len":len,"salt":hx(&salt),"ikm":hx(&ikm),"info":hx(&info)}), format!("HKDF output of length {} differs from RFC 5869 (correct output {})", len, hx(&want))),
+                    Err(p) => rep.violation("hkdf-panic", json!({"kind":"hkdf","shape":"by-value","len":len,"salt":hx(&salt),"ikm":hx(&ikm),"info":hx(&info)}), format!("HKDF panicked for an input whose correct output of length {} is {}: {}", len, hx(&want), p)),
+                }
+            });
+        }
+        rep.nontrivial(b"hkdf-by-value");
+        rep.extra("hkdf_all_zero_outputs_met", json!(zeros.load(std::sync::atomic::Ordering::Relaxed)));
     }
     // (e) HKDF
     let shapes: Vec<(&str, Vec<u8>, Vec<u8>, Vec<u8>)> = vec![
